@@ -222,16 +222,25 @@ static void Array_Concat(var self, var obj) {
   
   struct Array* a = self;
   
-  size_t i = 0;
   size_t olen = len(obj);
   
   a->nitems += olen;
   Array_Reserve_More(a);
+  a->nitems -= olen;
+  
+  if (obj is self) {
+    for (size_t i = 0; i < olen; i++) {
+      Array_Alloc(a, a->nitems);
+      assign(Array_Item(a, a->nitems), Array_Item(a, i));
+      a->nitems++;
+    }
+    return;
+  }
   
   foreach (item in obj) {
-    Array_Alloc(a, a->nitems-olen+i);
-    assign(Array_Item(a, a->nitems-olen+i), item);
-    i++;
+    Array_Alloc(a, a->nitems);
+    assign(Array_Item(a, a->nitems), item);
+    a->nitems++;
   }
   
 }
